@@ -124,7 +124,7 @@ def _inplace(code, f, kinds=('vec', 'op', 'misc')):
     def run(h):
         ids = [i for i, o in enumerate(h.pool) if o.kind in kinds]
         if not ids:
-            ids = [h.pick('vec')]
+            ids = [h.pick(kinds[0] if kinds[0] in ('vec', 'op') else 'vec')]       # an object of an admissible kind (never a vector for an operator-only operation)
         a = h.rng.choice(ids)
         try:
             r = f(h.pool[a].t, h)
